@@ -39,7 +39,7 @@ address-of other than `&a[i]`, floating point, struct assignment, pointer-to-poi
 import json, os, re, subprocess, sys
 
 KEYWORDS = {"done", "end", "from", "at", "in", "fun", "open", "then", "else", "if", "do", "let", "have", "show", "match", "with", "where",
-            "ub", "oof", "ret", "s", "fuel", "by", "local", "section", "namespace", "def", "theorem", "instance", "class", "structure",
+            "ub", "oof", "ret", "s", "fuel", "gto", "by", "local", "section", "namespace", "def", "theorem", "instance", "class", "structure",
             "mut", "for", "return", "break", "continue", "prefix", "infix", "notation", "macro", "syntax", "import", "export", "universe",
             "variable", "set_option", "attribute", "deriving", "extends", "Type", "Prop", "Sort", "true", "false", "brk", "cnt",
             "retnull", "private", "protected", "partial", "unsafe", "noncomputable", "abbrev", "example", "inductive", "mutual", "calc", "using",
@@ -144,12 +144,15 @@ class Fn:
         self.nloops = 0
         self.has_ret = False
         self.has_brk = False
+        self.has_goto = False     # forward `goto` to the single top-level label of the function (the `done:` idiom)
+        self.label = None
         self.ret_region = None
         self.ignore = set(opts.get("ignore_calls", []))
         self.globals = opts.get("globals", {})
         self.notes = []
         self.statics = []
         self.pidx = {}
+        self.esz = {}            # region -> size in bytes of one cell (for realloc / malloc byte counts)
         self.alias_locals = set()
         self.aliases = {}        # struct-pointer locals: name -> (struct parameter, member path); set by their (single) assignment `q = &(p->a.b)`
         self.pre_lines = []      # lines to emit before the statement being translated (calls of translated functions)
@@ -261,6 +264,12 @@ class Fn:
         if k == "ArraySubscriptExpr" and ptr_elem(qt(n)) is not None:
             # element of an array of pointers: info->row[k]  -> the region info_row (the caller passes that row)
             b = self.skip(n["inner"][0])
+            if b.get("kind") == "DeclRefExpr" and b["referencedDecl"]["name"] in self.ptr and self.ptr[b["referencedDecl"]["name"]] in self.local_regions:
+                # element of an array of pointers the function allocated: an address of the flat memory
+                lv = self.lvalue(n)
+                if "mem" not in self.regions:
+                    fail("%s: array of pointers without flat memory" % self.name)
+                return ("mem", self.read(lv[1], lv[2]), lv[3], lv[4])
             if b.get("kind") == "MemberExpr":
                 it, ic, ie = self.rvalue(n["inner"][1])
                 p_, path_ = self.member_chain(b)
@@ -320,6 +329,8 @@ class Fn:
                 nt, nc, ne = self.rvalue(n["inner"][2])
                 if e or ne or r.startswith("#") or r.startswith("@"):
                     fail("%s: unsupported realloc" % self.name)
+                if self.esz.get(r, 1) != 1:
+                    nt = "(Int.tdiv %s %d)" % (nt, self.esz[r])       # the byte count in cells of the region
                 eff = Eff(("whole", r), "((s.%s.take (Int.toNat (%s))) ++ List.replicate (Int.toNat (%s) - s.%s.length) 170)" % (r, nt, nt, r), r)
                 return (r, "0", c + nc + ["%s = 0" % i, "(0 : Int) ≤ %s" % nt], [eff])
             fail("%s: pointer-valued call of %s" % (self.name, nm))
@@ -347,7 +358,11 @@ class Fn:
         p, path = self.member_chain(m)
         if p is None:
             fail("%s: member %s of something that is not a struct parameter" % (self.name, m.get("name")))
-        return self.owned(p, self.region, "%s_%s" % (p, "_".join(path)))
+        reg = self.owned(p, self.region, "%s_%s" % (p, "_".join(path)))
+        w = int_width(ptr_elem(qt(m)) or "")
+        if w is not None:
+            self.esz[reg] = w[1] // 8
+        return reg
 
     # ---------------------------------------------------------------- lvalues
     def lvalue(self, n):
@@ -547,10 +562,18 @@ class Fn:
                 return self.call_translated(n, nm)
             if nm in self.opts.get("assume_calls", {}):
                 # a call whose effect is outside the modelled state and which is ASSUMED to return this value (trusted base)
-                note = "call of `%s` is assumed to return %s" % (nm, self.opts["assume_calls"][nm])
+                val = str(self.opts["assume_calls"][nm])
+                if val.startswith("param:"):
+                    # the result is an entry parameter (the same value at every call site: the calls must have equal arguments)
+                    f_ = self.scalar(val[6:], entry=True) if lname(val[6:]) not in self.scalars else lname(val[6:])
+                    note = "every call of `%s` returns the entry parameter `%s`" % (nm, f_)
+                    if note not in self.notes:
+                        self.notes.append(note)
+                    return "s.%s" % f_, [], []
+                note = "call of `%s` is assumed to return %s" % (nm, val)
                 if note not in self.notes:
                     self.notes.append(note)
-                return str(self.opts["assume_calls"][nm]), [], []
+                return val, [], []
             io = self.opts.get("io", {}).get(nm)
             if io == "getc":
                 # next byte of the input stream, FAIL (-1) at its end; the stream position advances when a byte was delivered
@@ -613,6 +636,8 @@ class Fn:
         if k == "UnaryExprOrTypeTraitExpr" and n.get("name") == "sizeof":
             at = n.get("argType", {}).get("qualType")
             w = int_width(at) if at else None
+            if w is None and at and ptr_elem(at) is not None:
+                return "8", [], []      # a pointer (LP64 host, as recorded in the trusted base)
             if w is None:
                 fail("%s: sizeof of %s" % (self.name, at))
             return str(w[1] // 8), [], []
@@ -837,6 +862,16 @@ class Fn:
             # a statement is guarded by the pending return/break/continue flags only when an EARLIER statement of the same block can set one
             out, may_exit = [], False
             for c in n.get("inner", []):
+                if c.get("kind") == "LabelStmt":
+                    # the target of the forward gotos: execution resumes here (unless a `return` was executed before)
+                    inner_l = self.stmt(c["inner"][-1], ind + ("  " if self.has_ret else ""))
+                    lab = [self.upd("gto", "false", ind + ("  " if self.has_ret else ""))] + inner_l if self.has_goto else inner_l
+                    if self.has_ret:
+                        out += ["%s%s s : %s.St := if s.done then s else" % (ind, self.bind(), self.name)] + lab + ["%s  s" % ind]
+                    else:
+                        out += lab
+                    may_exit = may_exit or self.can_exit(c["inner"][-1])
+                    continue
                 if may_exit:
                     out += self.wrapskip(self.stmt(c, ind + "  "), ind)
                 else:
@@ -952,6 +987,10 @@ class Fn:
             if self.has_ret:
                 out.append(self.upd("done", "true", ind))
             return out
+        if k == "GotoStmt":
+            return [self.upd("gto", "true", ind)]
+        if k == "LabelStmt":
+            fail("%s: label inside a nested statement" % self.name)
         if k == "BreakStmt":
             return [self.upd("brk", "true", ind)]
         if k == "ContinueStmt":
@@ -1051,6 +1090,13 @@ class Fn:
             sl = self.skip(lhs)
             if sl.get("kind") == "DeclRefExpr" and sl["referencedDecl"]["name"] in self.alias_locals:
                 return []
+            if sl.get("kind") == "ArraySubscriptExpr":
+                # element of an array of pointers held in a block of the function: it stores an ADDRESS of the flat memory
+                lv = self.lvalue(sl)
+                r, i, c, e = self.pexpr(rhs)
+                if r != "mem":
+                    fail("%s: a pointer into region %s is stored in an array of pointers (only flat addresses can be)" % (self.name, r))
+                return self.with_effects(c + lv[3], [(lv, i)], e + lv[4], ind)
             if sl.get("kind") == "MemberExpr":
                 # `info->buf = <pointer to the start of the region info_buf>` (after realloc, or restoring a saved copy): the region stays the
                 # member's region; anything else would re-seat the member to other memory, which the region model cannot express
@@ -1066,6 +1112,20 @@ class Fn:
                 fail("%s: assignment to pointer parameter %s, which is used as a region" % (self.name, nm))
             if self.is_null(rhs):
                 fail("%s: NULL assigned to pointer %s" % (self.name, nm))
+            if srhs.get("kind") == "CallExpr" and self.static_region(srhs) == "!malloc":
+                # p = malloc(bytes): a fresh block of bytes / sizeof(*p) cells holding the poison value 170 (indeterminate in C); never fails
+                reg = self.ptr[nm]
+                el_ = ptr_elem(qt(lhs))
+                esz = 8 if ptr_elem(el_ or "") is not None else ((int_width(el_)[1] // 8) if int_width(el_ or "") else 1)
+                self.esz[reg] = esz
+                cn = self.skip(srhs["inner"][0])["referencedDecl"]["name"]
+                if cn in ("calloc", "HDcalloc"):
+                    a1, c1, e1 = self.rvalue(srhs["inner"][1]); a2, c2, e2 = self.rvalue(srhs["inner"][2])
+                    cells, cks, fillv = "(Int.tdiv (%s * %s) %d)" % (a1, a2, esz), c1 + c2, "0"
+                else:
+                    a1, c1, e1 = self.rvalue(srhs["inner"][1])
+                    cells, cks, fillv = "(Int.tdiv %s %d)" % (a1, esz), c1, "170"
+                return self.checks(cks + ["(0 : Int) ≤ %s" % cells], ind) + [self.upd(reg, "List.replicate (Int.toNat %s) %s" % (cells, fillv), ind)] + self.assign(("scalar", self.pix(nm)), "0", ind)
             if chained:
                 inner = self.assignment(srhs, ind)
                 r, i, c, e = self.pexpr(srhs["inner"][0])
@@ -1102,7 +1162,7 @@ class Fn:
     def callstmt(self, n, ind):
         callee = self.skip(n["inner"][0])
         nm = callee.get("referencedDecl", {}).get("name")
-        if nm in self.ignore:
+        if nm in self.ignore or nm in ("free", "HDfree"):
             return []
         if nm in self.opts.get("io", {}) or nm in self.opts.get("assume_calls", {}) or nm in self.opts.get("_fns", {}):
             t_, c_, e_ = self.rvalue(n)
@@ -1259,20 +1319,20 @@ class Fn:
         return "r%d.ret" % k, [], []
 
     def can_exit(self, n):
-        if n.get("kind") in ("ReturnStmt", "BreakStmt", "ContinueStmt"):
+        if n.get("kind") in ("ReturnStmt", "BreakStmt", "ContinueStmt", "GotoStmt"):
             return True
         return any(self.can_exit(c) for c in n.get("inner", []))
 
     def exits_loop(self, n):
         """the statement contains a `break` or a `return` (a `break` of a nested loop counts too: guarding is harmless then)"""
-        if n.get("kind") in ("ReturnStmt", "BreakStmt"):
+        if n.get("kind") in ("ReturnStmt", "BreakStmt", "GotoStmt"):
             return True
         return any(self.exits_loop(c) for c in n.get("inner", []))
 
     def wrapskip(self, lines, ind):
-        if not lines or not (self.has_ret or self.has_brk):
+        if not lines or not (self.has_ret or self.has_brk or self.has_goto):
             return lines
-        cond = " ∨ ".join((["s.done"] if self.has_ret else []) + (["s.brk ∨ s.cnt"] if self.has_brk else []))
+        cond = " ∨ ".join((["s.done"] if self.has_ret else []) + (["s.gto"] if self.has_goto else []) + (["s.brk ∨ s.cnt"] if self.has_brk else []))
         return ["%s%s s : %s.St := if %s then s else" % (ind, self.bind(), self.name, cond)] + lines + ["%s  s" % ind]
 
     def loop(self, n, ind):
@@ -1312,11 +1372,11 @@ class Fn:
             # C: `break` (and `return`) leave a `for` loop WITHOUT executing its increment expression; `continue` does execute it
             # (`cnt` has been reset just before).  Only emitted when the body contains a break / return, so that loops without
             # them keep their text.
-            gc = " ∨ ".join((["s.done"] if self.has_ret else []) + (["s.brk"] if self.has_brk else []))
+            gc = " ∨ ".join((["s.done"] if self.has_ret else []) + (["s.gto"] if self.has_goto else []) + (["s.brk"] if self.has_brk else []))
             il = ["        %s s : %s.St := if %s then s else" % (self.bind(), self.name, gc)] + ["  " + l for l in il] + ["          s"]
         stop = ""
-        if self.has_ret or self.has_brk:
-            stop = " ∧ ¬(" + " ∨ ".join((["s.done"] if self.has_ret else []) + (["s.brk"] if self.has_brk else [])) + ")"
+        if self.has_ret or self.has_brk or self.has_goto:
+            stop = " ∧ ¬(" + " ∨ ".join((["s.done"] if self.has_ret else []) + (["s.gto"] if self.has_goto else []) + (["s.brk"] if self.has_brk else [])) + ")"
         reset = [self.upd("cnt", "false", "        ")] if self.has_brk else []
         pre = ["      " + l for l in cond_pre] + self.checks(cc, "      ")
         if ce:
@@ -1380,6 +1440,10 @@ class Fn:
             return self.static_region(n["inner"][0])
         if k == "BinaryOperator" and n["opcode"] == "=":
             return self.static_region(n["inner"][1])
+        if k == "CallExpr":
+            cn = self.skip(n["inner"][0]).get("referencedDecl", {}).get("name")
+            if cn in ("malloc", "calloc", "HDmalloc", "HDcalloc"):
+                return "!malloc"
         return None
 
     def resolve_ptr_locals(self, body):
@@ -1434,11 +1498,16 @@ class Fn:
                 if nm in self.ptr_is_param_region:
                     continue
                 r = self.static_region(rhs)
+                if r == "!malloc":
+                    r = lname(nm) + "_blk"
+                    self.local_regions.setdefault(r, 0)       # a block the function allocates itself; sized at the malloc
                 if r is not None and self.ptr.get(nm) is None:
                     self.ptr[nm] = r
                     changed = True
         for nm, rhs in assigns:
             r = self.static_region(rhs)
+            if r == "!malloc":
+                r = lname(nm) + "_blk"
             if r is not None and nm not in self.ptr_is_param_region and self.ptr.get(nm) != r:
                 fail("%s: pointer %s points into two regions (%s, %s)" % (self.name, nm, self.ptr.get(nm), r))
 
@@ -1449,8 +1518,12 @@ class Fn:
             self._rets.append(n)
         if k == "ContinueStmt" or (k == "BreakStmt" and not in_switch):
             self.has_brk = True
-        if k in ("GotoStmt", "LabelStmt"):
-            fail("%s: %s" % (self.name, k))
+        if k == "GotoStmt":
+            self.has_goto = True
+        if k == "LabelStmt":
+            if self.label is not None:
+                fail("%s: more than one label" % self.name)
+            self.label = n.get("name", "L")
         if k == "SwitchStmt":
             in_switch = True
         if k in ("ForStmt", "WhileStmt", "DoStmt"):
@@ -1559,7 +1632,7 @@ class Fn:
         given = set(n for n, _ in ordered)
         inits = ["%s := %s" % (n, n) for n, _ in ordered]
         for r, size in self.local_regions.items():
-            inits.append("%s := List.replicate %d 0" % (r, size))
+            inits.append(("%s := List.replicate %d 0" % (r, size)) if size else ("%s := []" % r))
             given.add(r)
         st = ["structure %s.St where" % self.name]
         for f in self.scalars:
@@ -1575,6 +1648,8 @@ class Fn:
             st.append("  retnull : Bool := false")
         if self.has_ret:
             st.append("  done : Bool := false")
+        if self.has_goto:
+            st.append("  gto : Bool := false")
         if self.has_brk:
             st += ["  brk : Bool := false", "  cnt : Bool := false"]
         st.append("deriving Repr, DecidableEq")
@@ -1589,7 +1664,7 @@ class Fn:
             ftype[f] = "List Int"
         for f in self.rowsets:
             ftype[f] = "List (List Int)"
-        for f in ("retnull", "done", "brk", "cnt"):
+        for f in ("retnull", "done", "brk", "cnt", "gto"):
             ftype[f] = "Bool"
         ftype["ret"] = "Int"
         if self.uses_join:
